@@ -261,6 +261,12 @@ def run(tier, seed, replay=None):
         "get_deps_paths() splits at every ':', so a root such as /data/a:b makes the library report more, shorter paths than were listed; task, package "
         "and version names cannot contain ':', so only the root can introduce one; the property quantifies over graphs, task kinds, nesting, args/options "
         "and cache states, not over root paths (Props/C07.v states the round trip under exactly this side condition)",
+        "in_output_dir(p) is COND_OUT/p for a relative, normalised p: pathlib's `/` returns p itself for an absolute p and drops '.', '//' and a trailing '/' (the model concatenates)",
+        "the command is handed to `bash -c` as ONE unquoted string (run, then args, then --key=value options): an argument containing shell syntax ('#', ';', a newline, quotes) is "
+        "interpreted by bash -- C07_cmdline is about that string, not about the argv the command finally receives; the real children use arguments without shell syntax",
+        "the environment inherited from the caller contains nothing that changes how bash starts (BASH_ENV, exported shell functions): it is passed through unchanged, "
+        "and BASH_ENV pointing at a script that changes directory or COND_OUT would break the contract",
+        "Model/Env.v working_dir, cond_name, lib_get_output_path, lib_in_output_dir are checked against the implementation by the correspondence part only; no theorem is stated about them",
     ]
     chk.coverage["rule"] = ("(a) scheduling cases (corpus, diamonds in both listing orders, seeded random DAGs over four task kinds in nested packages, cached experiments, --again, "
                             "jobs 1-4): every spawn's argv/cwd/env checked, dependency snapshot compared with the planner model; (b) generated run/args/options: command line vs "
